@@ -6,6 +6,8 @@ import faulthandler
 import gc
 import hashlib
 import os
+
+import numpy as np
 import shutil
 import signal
 import subprocess
@@ -236,14 +238,81 @@ def handles():
             gc.enable()
 
 
-def to_disk(f, d, h, name='src.nc', fmt='netcdf'):
+def write_foreign(f, path):
+    """the content of the in-memory file f written with netCDF4 directly, the
+    way other tools write archive files: float data variables PACKED (int16
+    with scale_factor / add_offset), masks as _FillValue.  What the file
+    holds afterwards (packing is lossy) is what a check snapshots."""
+    import netCDF4
+    ds = netCDF4.Dataset(path, 'w', format='NETCDF4')
+    try:
+        for k, dm in f.dimensions.items():
+            ds.createDimension(k, None if dm.isunlimited() else len(dm))
+        for k in f.ncattrs():
+            ds.setncattr(k, getattr(f, k))
+        coords = set(f.getCoords()) | set(f.dimensions.keys())
+        for k in f.variables.keys():
+            v = f.variables[k]
+            a = v[...]
+            dt = np.dtype(v.dtype)
+            data = np.ma.getdata(a)
+            masked = isinstance(a, np.ma.MaskedArray)
+            atts = {ak: v.getncattr(ak) if hasattr(v, 'getncattr')
+                    else getattr(v, ak) for ak in v.ncattrs()
+                    if ak not in ('_FillValue', 'fill_value')}
+            pack = dt.kind == 'f' and v.ndim >= 1 and k not in coords and \
+                data.size > 0 and np.isfinite(data).all() and \
+                'scale_factor' not in atts and 'add_offset' not in atts
+            if pack:
+                lo, hi = float(data.min()), float(data.max())
+                sc = np.float32((hi - lo) / 60000.) if hi > lo else \
+                    np.float32(1)
+                off = np.float32((hi + lo) / 2.)
+                nv = ds.createVariable(k, 'i2', tuple(v.dimensions),
+                                       fill_value=-32767)
+                nv.setncatts(atts)
+                nv.scale_factor = sc
+                nv.add_offset = off
+                nv[...] = a
+            else:
+                kw = {}
+                if masked and dt.kind in 'fiu':
+                    kw['fill_value'] = dt.type(getattr(a, 'fill_value', 0))
+                nv = ds.createVariable(k, 'S1' if dt.kind in 'SU' else dt,
+                                       tuple(v.dimensions), **kw)
+                nv.setncatts(atts)
+                if v.ndim == 0 or 0 not in data.shape:
+                    nv[...] = a
+    finally:
+        ds.close()
+
+
+def to_disk(f, d, h, name='src.nc', fmt='netcdf', res=None, foreign=False):
     """Save the in-memory file f as NETCDF4 under directory d and open it
     again (handles kept in h).  -> the disk-backed file, or None when the
-    file cannot be saved (saving is C07's business)."""
+    file cannot be saved (saving is C07's business).  One plain file in
+    three is written with netCDF4 directly instead (packed variables)."""
+    import zlib
     import PseudoNetCDF as pnc
     try:
         path = os.path.join(d, name)
-        h.keep(f.save(path, format='NETCDF4', verbose=0)).close()
+        key = repr([(k, len(dm)) for k, dm in f.dimensions.items()] +
+                   list(f.variables.keys()))
+        # (only for checks whose oracle snapshots the opened file: packing
+        # is lossy)
+        foreign = foreign and fmt == 'netcdf' and \
+            zlib.crc32(key.encode()) % 3 == 0
+        if foreign:
+            try:
+                write_foreign(f, path)
+            except Exception:
+                foreign = False
+                if os.path.exists(path):
+                    os.remove(path)
+        if not foreign:
+            h.keep(f.save(path, format='NETCDF4', verbose=0)).close()
+        elif res is not None:
+            res.facet('source:disk-written-by-netCDF4-packed')
         g = h.keep(pnc.pncopen(path, format=fmt))
         # an unlimited dimension no variable uses has length 0 on disk: then
         # the file on disk is another file than the one generated
